@@ -471,7 +471,7 @@ Section NoFuel.
     Lemma pop_spec s :
       pop_cleanup s = mkOut (Ok None) s wnil \/
       exists id c rest, cleanups (ts s) = (id, c) :: rest /\
-        pop_cleanup s = mkOut (Ok (Some c)) (with_ts s (mkT (failed (ts s)) rest (ctx (ts s)) true)) (wev [URun id] false false).
+        pop_cleanup s = mkOut (Ok (Some c)) (with_ts s (mkT (failed (ts s)) rest (ctx (ts s)) true (skipreq (ts s)))) (wev [URun id] false false).
     Proof.
       unfold pop_cleanup. destruct (cleanups (ts s)) as [|[id c] rest]; [left; reflexivity|].
       destruct (cleaning (ts s)); [right; eauto|left; reflexivity].
@@ -481,11 +481,26 @@ Section NoFuel.
       (res o = Err XFuel -> (0 < k -> Qne) /\ (LF <= nrun (tr (w o)) \/ k <= nrun (tr (w o)))) /\
       (exists l', src (post o) = SBuf l' /\ length l' <= length l) /\ SI (ts (post o)).
 
+    (* the steps between two cleanup functions (mark_dirty, note_skip): they succeed, log nothing, and keep the
+       source and the cleanup stack *)
+    Definition same_sc (s2 s1 : st) : Prop := src s2 = src s1 /\ cleanups (ts s2) = cleanups (ts s1).
+    Definition quiet (pre : M unit) : Prop :=
+      forall st, res (pre st) = Ok tt /\ tr (w (pre st)) = [] /\ same_sc (post (pre st)) st.
+    Lemma quiet_ret : quiet (ret tt).
+    Proof. intros st. repeat split. Qed.
+    Lemma quiet_mark_dirty : quiet mark_dirty.
+    Proof. intros st. repeat split. Qed.
+    Lemma quiet_note_skip m : quiet (note_skip m).
+    Proof. intros st. repeat split. Qed.
+    Lemma quiet_dirty_if (b : bool) : quiet (if b then mark_dirty else ret tt).
+    Proof. destruct b; [apply quiet_mark_dirty|apply quiet_ret]. Qed.
+
     Lemma cl_pre A k l (pre : M unit) (m : M A) st :
-      (pre = ret tt \/ pre = mark_dirty) -> cl_at k l (m st) -> cl_at k l (bind pre (fun _ => m) st).
+      quiet pre -> cl_at k l (m (post (pre st))) -> cl_at k l (bind pre (fun _ => m) st).
     Proof.
-      intros [->| ->] (F & Mn & Si); unfold bind, ret, mark_dirty; cbn [res post w]; (split; [|split]); auto;
-        intros E; destruct (F E) as [q Hn]; (split; [exact q|]); trs; cbn [Nat.add]; exact Hn.
+      intros Hq (F & Mn & Si). destruct (Hq st) as (E1 & E2 & _). unfold bind. rewrite E1. cbn [res post w].
+      split; [|split]; auto.
+      cbn [res] in *. intros E; destruct (F E) as [q Hn]; (split; [exact q|]); cbn [w]; trs; rewrite E2; cbn [nrun Nat.add]; exact Hn.
     Qed.
 
     Lemma nf_cleanup_loop : forall fuel last s l,
@@ -506,9 +521,14 @@ Section NoFuel.
           destruct (Hcrun c Qc s' l Hs' Hl Hsi') as (F & (l1 & S1 & L1) & R2r).
           specialize (R2r Hsi').
           assert (Hl1 : length l1 < LF) by lia.
-          assert (K : forall last', cl_at f l (cleanup_loop crun f last' (post (crun c s')))).
-          { intros last'. destruct (IH last' (post (crun c s')) l1 S1 Hl1 R2r) as (F2 & (l2 & S2 & L2) & Si2).
+          assert (K : forall last' s2, same_sc s2 (post (crun c s')) -> cl_at f l (cleanup_loop crun f last' s2)).
+          { intros last' s2 [Es Ecl].
+            assert (S1' : src s2 = SBuf l1) by (rewrite Es; exact S1).
+            assert (Si' : SI (ts s2)) by (unfold SI; rewrite Ecl; exact R2r).
+            destruct (IH last' s2 l1 S1' Hl1 Si') as (F2 & (l2 & S2 & L2) & Si2).
             split; [exact F2|split; [exists l2; split; [exact S2|lia]|exact Si2]]. }
+          assert (K0 : forall last', cl_at f l (cleanup_loop crun f last' (post (crun c s')))).
+          { intros last'. apply K. split; reflexivity. }
           assert (G : forall o2 : out (option exn),
                      (cl_at f l o2 \/
                       (res (crun c s') = Err XFuel /\ post o2 = post (crun c s'))) ->
@@ -524,17 +544,21 @@ Section NoFuel.
           unfold try_. cbv zeta.
           destruct (res (crun c s')) as [v|e] eqn:Er; [|destruct e as [m|m st|m st|]]; cbv beta iota zeta; cbn [res post w];
             (lazymatch goal with |- cl_at _ _ (mkOut (res ?o) _ _) => apply (G o) end).
-          * left. apply K.
-          * left. apply cl_pre; [destruct (internal_msg m); auto|apply K].
-          * left. apply cl_pre; [auto|apply K].
-          * left. apply cl_pre; [auto|apply K].
+          * left. apply K0.
+          * left. apply cl_pre; [apply quiet_dirty_if|]. apply cl_pre; [apply quiet_note_skip|]. apply K.
+            destruct (quiet_dirty_if (internal_msg m) (post (crun c s'))) as (_ & _ & [A1 A2]).
+            destruct (quiet_note_skip m (post ((if internal_msg m then mark_dirty else ret tt) (post (crun c s')))))
+              as (_ & _ & [B1 B2]).
+            split; [rewrite B1; exact A1|rewrite B2; exact A2].
+          * left. apply K0.
+          * left. apply K0.
           * right. split; reflexivity.
     Qed.
 
     (* the panic that T.cleanup reports is never the fuel artefact *)
     Lemma pre_res A (pre : M unit) (m : M A) st :
-      (pre = ret tt \/ pre = mark_dirty) -> res (bind pre (fun _ => m) st) = res (m st).
-    Proof. intros [->| ->]; reflexivity. Qed.
+      quiet pre -> res (bind pre (fun _ => m) st) = res (m (post (pre st))).
+    Proof. intros Hq. destruct (Hq st) as (E & _). unfold bind. rewrite E. reflexivity. Qed.
     Lemma cleanup_loop_okl : forall fuel last s r,
       last <> Some XFuel -> res (cleanup_loop crun fuel last s) = Ok r -> r <> Some XFuel.
     Proof.
@@ -544,9 +568,10 @@ Section NoFuel.
       - unfold try_ in H. cbv zeta in H. cbn [res] in H.
         destruct (res (crun c _)) as [v|[m|m st|m st|]]; cbv beta iota zeta in H.
         + eapply IH; [|exact H]. exact Hlast.
-        + rewrite pre_res in H by (destruct (internal_msg m); auto). eapply IH; [|exact H]. discriminate.
-        + rewrite pre_res in H by auto. eapply IH; [|exact H]. discriminate.
-        + rewrite pre_res in H by auto. eapply IH; [|exact H]. discriminate.
+        + rewrite pre_res in H by apply quiet_dirty_if. rewrite pre_res in H by apply quiet_note_skip.
+          eapply IH; [|exact H]. exact Hlast.
+        + eapply IH; [|exact H]. discriminate.
+        + eapply IH; [|exact H]. discriminate.
         + discriminate.
     Qed.
     Lemma cleanup_okl s r : res (cleanup LF crun s) = Ok r -> r <> Some XFuel.
@@ -626,7 +651,7 @@ Section NoFuel.
       Variable Pre : tstate -> Prop.
       Variable R : tstate -> tstate -> Prop.
       Context {HR : RelOK Pre R}.
-      Hypothesis R_reg : forall t id f, Q f -> R t (mkT (failed t) ((id, f) :: cleanups t) (ctx t) (cleaning t)).
+      Hypothesis R_reg : forall t id f, Q f -> R t (mkT (failed t) ((id, f) :: cleanups t) (ctx t) (cleaning t) (skipreq t)).
       Hypothesis R_SI : forall t t', R t t' -> SI t -> SI t'.
       Hypothesis Pre_SI : forall t, SI t -> Pre t.
 
@@ -647,7 +672,7 @@ Section NoFuel.
         - intros Hb E. destruct (F Hb E) as [q Hn]. split; [exact q|].
           cbn [tr nrun]. rewrite nrun_app. cbn [nrun]. lia.
         - exact Mn.
-        - apply R_same. destruct (failed (ts (post (m (with_ts s fresh_t))))); reflexivity.
+        - apply R_same. reflexivity.
       Qed.
       Lemma NF_custom_att b (body : M val) : NFb Pre R b body -> NFb Pre R b (custom_att LF crun body).
       Proof.
@@ -743,8 +768,11 @@ Section NoFuel.
       assert (H : NFb SI R2 b (
           _ <- (match r with Err (XInvalid m) => if internal_msg m then mark_dirty else ret tt | _ => ret tt end) ;;
           c <- cleanup LF crun ;;
-          let r' := match c with Some e => Err e | None => r end in
           t <- get_ts ;;
+          let r' := match c with
+                    | Some e => Err e
+                    | None => match r, skipreq t with Ok _, Some m => Err (XInvalid m) | _, _ => r end
+                    end in
           match r', failed t with
           | Err XFuel, _ => throw XFuel
           | Ok _, Some m | Err (XInvalid _), Some m => throw (XStop m SLate)
@@ -755,10 +783,17 @@ Section NoFuel.
         - destruct r as [|[]]; nf. destruct (internal_msg m); nf.
         - intros _.
           apply (NF_bind_val _ _ _ _ _ _ _ (fun c => c <> Some XFuel)); [apply NF_cleanup|intros s c; apply cleanup_okl|intros c Hc].
-          cbv zeta. ap NF_bind; [nf|intros t].
-          assert (Hr' : b = true -> match c with Some e => Err e | None => r end <> Err XFuel).
-          { intros Hb. destruct c as [e|]; [|exact (Hr Hb)]. intros E. apply Hc. injection E as ->. reflexivity. }
-          destruct (match c with Some e => Err e | None => r end) as [u|[]]; destruct (failed t); nf;
+          ap NF_bind; [nf|intros t]. cbv zeta.
+          set (r' := match c with
+                     | Some e => Err e
+                     | None => match r, skipreq t with Ok _, Some m => Err (XInvalid m) | _, _ => r end
+                     end).
+          assert (Hr' : b = true -> r' <> Err XFuel).
+          { intros Hb. unfold r'. destruct c as [e|].
+            - intros E. apply Hc. injection E as ->. reflexivity.
+            - destruct r as [u|e]; [destruct (skipreq t); discriminate|exact (Hr Hb)]. }
+          clearbody r'.
+          destruct r' as [u|[]]; destruct (failed t); nf;
             ap NF_throw; intros Hb; destruct (Hr' Hb eq_refl). }
       destruct r as [u|[]]; first [exact H | ap NF_throw; intros Hb; destruct (Hr Hb eq_refl)].
     Qed.
@@ -1009,12 +1044,7 @@ Qed.
 Lemma acc_fresh A (m : M A) : ACC m -> ACC (with_fresh_T m).
 Proof.
   intros Hm s. unfold with_fresh_T. specialize (Hm (with_ts s fresh_t)). cbn [with_ts ts fresh_t cleanups length] in Hm.
-  cbn [res post w with_ts ts tr nrun nreg]. rewrite nrun_app, nreg_app. cbn [nrun nreg].
-  assert (E : length (cleanups (match failed (ts (post (m (with_ts s fresh_t)))) with
-                                | Some msg => mkT (Some msg) (cleanups (ts s)) (ctx (ts s)) (cleaning (ts s))
-                                | None => ts s end)) = length (cleanups (ts s))).
-  { destruct (failed _); reflexivity. }
-  rewrite E. lia.
+  cbn [res post w with_ts ts tr nrun nreg cleanups]. rewrite nrun_app, nreg_app. cbn [nrun nreg]. lia.
 Qed.
 
 Ltac acc_prim := apply acc_state; intros s0; split; reflexivity.
